@@ -674,3 +674,27 @@ def rerun_under(ctx, other_prop_fn, as_rule, keep=lambda r: True):
         other_prop_fn(ctx)
     finally:
         ctx.rep = real
+
+
+def deep_call_names(F, body, operand, depth=0):
+    """names of all calls an operand derives from (through call arguments), following captured variables of a closure into the
+    enclosing function"""
+    from ..flow import origins
+    from .c03 import kind_deep
+    names = set()
+    for d, p in kind_deep(body, operand):
+        if d[0] == "call":
+            names.add(body.term(d[1])["callee"].get("name") or "?")
+        elif d[0] == "param" and d[1] == 1 and body.kind == "closure" and p and depth < 3:
+            idx = str(p[0])
+            up = None
+            for uv in body.mir.get("upvars", []):
+                fs = [x for x in uv["place"]["p"] if isinstance(x, dict) and "f" in x]
+                if fs and str(fs[0]["f"]) == idx:
+                    up = uv["name"]
+            parent = F.fn(body.d["parent"]) if up else None
+            if parent is not None:
+                for i, loc in enumerate(parent.locals):
+                    if loc.get("name") == up:
+                        names |= deep_call_names(F, parent, {"copy": {"l": i, "p": []}}, depth + 1)
+    return names
